@@ -108,10 +108,62 @@ def confirm_hang(ctx, exe, target, data):
         return False, 180.0
 
 
+def pretty_threads(ctx):
+    """Deterministic side workload (san flavour of drv_fmt): one PrettyFormatter formats messages that really come from N distinct
+    threads (1..300, crossing the 10 and 100 boundaries of the thread column) in hostile orders; a sanitizer abort or a NUL character
+    in the output is a violation.  Returns (cases, violations)."""
+    import random
+    from .. import fmtdrv
+    from ..core import hexb, unhexs
+    rnd = random.Random(ctx.seed * 31 + 14)
+    cases = []
+    for n in [1, 2, 9, 10, 11, 12, 13, 99, 100, 101, 102, 103, 150, 300] + [rnd.randint(2, 220) for _ in range(ctx.pick(10, 200))]:
+        for _ in range(2):
+            cats = rnd.choice([[b"default"], [b"default", b"net"], [b"a.very.long.category.name.indeed", b"default"], [b"default"] * 3 + [b"x"]])
+            order = []
+            k = rnd.random()
+            if k < 0.4:
+                order = list(range(n)) + [0, n - 1, 0]                       # everyone once, then the first thread again
+            elif k < 0.7:
+                order = [rnd.randrange(n) for _ in range(min(3 * n, 400))]
+            else:
+                order = list(range(n - 1, -1, -1)) + list(range(n))
+            cases.append((rnd.randrange(2), rnd.choice([-1, 0, 3, 10, 15, 40]), n, cats, order[:600]))
+    lines = ["TT %d %d %d %d %d %s %d %s" % (i, c[0], c[1], c[2], len(c[3]), " ".join(hexb(x) for x in c[3]), len(c[4]),
+                                              " ".join(str(t) for t in c[4])) for i, c in enumerate(cases)]
+    results, crashes = fmtdrv.run_cases(ctx, "san", lines, chunk=8)
+    found = []
+    crashed = set()
+    for cid, line, kind, err in crashes:
+        crashed.add(cid)
+        if kind != "skipped":
+            c = cases[int(cid)]
+            found.append(("C14:pretty-threads:%s" % kind, "threads=%d colour=%d width=%d :: %s" % (c[2], c[0], c[1], err[-1500:]),
+                          {"target": "pretty-threads", "line": lines[int(cid)], "input_hex": ""}))
+    for i, c in enumerate(cases):
+        if str(i) in crashed:
+            continue
+        outs = results[str(i)]
+        for t, h in zip(c[4], outs):
+            text = unhexs(h)
+            if "\x00" in text or ("text-of-t%d" % (t % c[2])) not in text:
+                found.append(("C14:pretty-threads:corrupt-output", "threads=%d: line for thread %d is %r" % (c[2], t, text[:120]),
+                              {"target": "pretty-threads", "line": lines[i], "input_hex": ""}))
+                break
+    return len(cases), found
+
+
 def run(ctx):
     exe = build.ensure_fuzz()
     if ctx.replay:
         rep = json.load(open(ctx.replay))["case"]
+        if rep.get("target") == "pretty-threads":
+            from .. import fmtdrv
+            results, crashes = fmtdrv.run_cases(ctx, "san", [rep["line"]], chunk=1)
+            for cid, line, kind, err in crashes:
+                ctx.violation("C14:pretty-threads:%s" % kind, err[-1500:], rep)
+            return ctx.finish({"evaluations": 1, "distinct_nontrivial": 0, "rule": "replay", "samples": ["pretty-threads"]}, [], min_evals=1,
+                              min_distinct=0)
         d = os.path.join(ctx.tmp, "replay")
         os.makedirs(d)
         f = os.path.join(d, "input")
@@ -167,6 +219,9 @@ def run(ctx):
         ctx.violation(key, "input (%d bytes) %r... :: %s" % (len(f["input_hex"]) // 2, bytes.fromhex(f["input_hex"][:160]), f["stderr"][-1800:]), case)
         if r["execs"] == 0:
             r["execs"] = 1
+    n_pt, found_pt = pretty_threads(ctx)
+    for key, what, case in found_pt:
+        ctx.violation(key, what, case)
     if any(v["execs"] == 0 for v in per.values()) and not ctx.violations:
         raise core.Inconclusive("a fuzz target executed nothing: %s" % per)
     cov = {
@@ -178,8 +233,9 @@ def run(ctx):
         "samples": samples,
         "per_target": per,
         "observations_slow_or_oom": observations,
+        "pretty_formatter_many_threads_cases": n_pt,
         "scope": "patterns asking for a field of >= 100000 characters (six consecutive digits) are rejected by the target: resource exhaustion "
                  "as requested, not memory unsafety",
     }
-    return ctx.finish(cov, ["clang 14 libFuzzer + ASan + UBSan; Qt is uninstrumented", "only formatters/*.cpp and filters/*.cpp are linked "
+    return ctx.finish(cov, ["clang 14 libFuzzer + ASan + UBSan, Qt's inline assertions enabled (no QT_NO_DEBUG); Qt itself is uninstrumented", "only formatters/*.cpp and filters/*.cpp are linked "
                             "(clang cannot compile logger.cpp)"], min_evals=1000, min_distinct=20)
